@@ -33,6 +33,17 @@ int main(int argc, char** argv) {
       }
     }
   }
+  // an IEEE float field decoded after other fields on the same stream
+  {
+    const NumberDataType* e = (const NumberDataType*)DataTypeList::getInstance()->get("EXP");
+    for (float v : {0.25f, 0.065f, -32.767f, 0.0f}) {
+      unsigned raw; memcpy(&raw, &v, 4);
+      ostringstream fresh; e->readFromRawValue(raw, OF_NONE, &fresh);
+      ostringstream used; used << hex << setw(6) << setfill('*') << fixed << setprecision(2) << 1.5 << ";"; size_t before = used.str().size();
+      e->readFromRawValue(raw, OF_NONE, &used);
+      if (used.str().substr(before) != fresh.str()) fail("type EXP, value %g: shown as \"%s\" after other output on the stream, as \"%s\" on a fresh stream", (double)v, used.str().substr(before).c_str(), fresh.str().c_str());
+    }
+  }
   if (!g_failures) printf("NOT-REPRODUCED\n");
   return 0;
 }
